@@ -1,12 +1,13 @@
 (* C11 - Graph construction keeps topology invariants under any call sequence. Statements only.
    Model: Model/C11.v (mirrors Subscription.__new__, publish/republish, Node/Worker/Future._publish,
    Future register/_collapse, Worker.train, including the state a failing call leaves behind).
-   PARTIAL: proved for direct worker-to-worker wiring; the full claims are refuted (witnesses below) for
-   placeholders and for the two-step train call; the remaining invariants (single publisher, apply-xor-train,
-   one trained member per group, trained workers publish nothing) are checked on every generated sequence by
-   the correspondence oracle but not yet proved. *)
+   PARTIAL: proved for direct worker-to-worker wiring (a refused subscription changes nothing, no self edge, at most
+   one publisher per input port and one exactly when the port is registered - after any call sequence); the full
+   claims are refuted (witnesses below) for placeholders and for the two-step train call; the remaining invariants
+   (apply-xor-train, one trained member per group, trained workers publish nothing) are checked on every generated
+   sequence by the correspondence oracle but not proved. *)
 Require Import List Bool Arith.
-From FV Require Import Model.C11 Proofs.C11.
+From FV Require Import Model.C11 Proofs.C11 Proofs.C11Single.
 Import ListNotations.
 
 (* direct wiring: a refused subscription leaves the graph exactly as it was (extensionally) *)
@@ -24,6 +25,15 @@ Theorem C11_no_self_edge_partial : forall u st o st' ok,
   no_self st -> step u st o = (st', ok) -> no_self st'.
 Proof. exact step_no_self. Qed.
 Print Assumptions C11_no_self_edge_partial.
+
+(* direct wiring: after any sequence of subscribe / train calls (refused ones included) every input port is fed by at most
+   one output, and by one exactly when it is registered *)
+Theorem C11_single_publisher_direct_partial : forall u, worker_only u -> forall ops st' ok,
+  Forall (in_range u) ops -> In (st', ok) (run u empty ops) ->
+  (forall n p m i m' i', In (n, p) (get_out (m, i) (outs st')) -> In (n, p) (get_out (m', i') (outs st')) -> (m, i) = (m', i'))
+  /\ (forall n p, has_port st' n p = true <-> exists k, In (n, p) (get_out k (outs st'))).
+Proof. exact single_publisher. Qed.
+Print Assumptions C11_single_publisher_direct_partial.
 
 (* the full claim "at most one publisher per input port" is FALSE with placeholders:
    f[0].subscribe(a[0]); f[0].subscribe(b[0]); w[0].subscribe(f[0]) - all three calls succeed and w@Apply[0]
